@@ -49,6 +49,18 @@ func ErrKind(err error) string {
 	return fmt.Sprintf("%T", err)
 }
 
+// Rec is the Go struct some documents hold (by pointer, by value and in a
+// slice): callers may hand Eval any Go value, not only decoded JSON.
+type Rec struct {
+	P    string
+	Q    float64
+	Tags []string
+	In   map[string]interface{}
+	Sub  *Rec
+}
+
+var recType = reflect.TypeOf(Rec{})
+
 func canon(b *strings.Builder, v reflect.Value, depth int) {
 	if depth > 64 {
 		b.WriteString(`"<deep>"`)
@@ -64,7 +76,7 @@ func canon(b *strings.Builder, v reflect.Value, depth int) {
 			b.WriteString("null")
 			return
 		}
-		if v.Kind() == reflect.Ptr && v.Elem().Kind() == reflect.Struct {
+		if v.Kind() == reflect.Ptr && v.Elem().Kind() == reflect.Struct && v.Elem().Type() != recType {
 			// callables and other opaque values
 			fmt.Fprintf(b, `"<%s>"`, v.Type().String())
 			return
@@ -123,6 +135,18 @@ func canon(b *strings.Builder, v reflect.Value, depth int) {
 		}
 		b.WriteByte('}')
 	case reflect.Struct:
+		if v.Type() == recType {
+			b.WriteString("{")
+			for i := 0; i < v.NumField(); i++ {
+				if i > 0 {
+					b.WriteByte(',')
+				}
+				b.WriteString(strconv.Quote(v.Type().Field(i).Name) + ":")
+				canon(b, v.Field(i), depth+1)
+			}
+			b.WriteString("}")
+			return
+		}
 		fmt.Fprintf(b, `"<%s>"`, v.Type().String())
 	default:
 		fmt.Fprintf(b, `"<%s>"`, v.Kind().String())
